@@ -1,4 +1,9 @@
-"""property -> rules mapping and the texts that go to MANIFEST / evidence"""
+"""property -> rules mapping and the texts that go to MANIFEST / evidence.
+
+A rule entry is either a rule name or (rule name, [function patterns]) restricting the rule's obligations and findings
+to constructs inside matching functions (fnmatch on the qualified function name); '!pat' excludes.
+"""
+import fnmatch
 
 ASSUMPTIONS = [
     'A1 the program is what ast shows: no dynamic dispatch, patching or inheritance between package classes '
@@ -12,10 +17,114 @@ ASSUMPTIONS = [
 PROPS = {}
 
 
-def prop(pid, rules, explanation, claim, not_decided):
-    PROPS[pid] = {'rules': ['R-STATIC-SHAPE'] + rules, 'explanation': explanation, 'claim': claim,
-                  'not_decided': not_decided}
+def prop(pid, rules, explanation, claim, not_decided, technique=None):
+    rr = [('R-STATIC-SHAPE', None)]
+    for r in rules:
+        rr.append((r, None) if isinstance(r, str) else (r[0], list(r[1])))
+    PROPS[pid] = {'rules': rr, 'explanation': explanation, 'claim': claim, 'not_decided': not_decided}
+    if technique:
+        PROPS[pid]['technique'] = technique
 
+
+def in_scope(scope, func):
+    if scope is None:
+        return True
+    pos = [p for p in scope if not p.startswith('!')]
+    neg = [p[1:] for p in scope if p.startswith('!')]
+    if any(fnmatch.fnmatchcase(func, p) for p in neg):
+        return False
+    return not pos or any(fnmatch.fnmatchcase(func, p) for p in pos)
+
+
+NETWORK = ['Traph.get_webentities_*']
+WE_LINKS = ['Traph.get_webentity_pagelinks_iter', 'Traph.get_webentity_outlinks_iter', 'Traph.get_webentity_inlinks_iter']
+PAGELINK_PAGING = ['Traph.paginate_webentity_pagelinks']
+MOST_LINKED = ['Traph.get_webentity_most_linked_pages_iter']
+PAGE_LINKS = ['!' + p for p in NETWORK + WE_LINKS + PAGELINK_PAGING + MOST_LINKED]
+
+prop('C01', ['R-FRESH', 'R-DIRTY-WRITTEN', 'R-MONOTONE-CALLERS', 'R-CRAWLED', 'R-READONLY'],
+     'Typestate dataflow on per-function CFGs over the typed call graph: (R-FRESH) no trie-node copy is written back, or '
+     'handed to a callee that writes it, after a call that may rewrite trie blocks or a yield without an intervening '
+     'refresh/read; (R-DIRTY-WRITTEN) every mutated node reaches write() before rebind/reload/return; (R-MONOTONE) page and '
+     'crawled marks are never cleared; (R-CRAWLED) a page is marked crawled only under the request\'s crawled argument or as '
+     'crawl-batch source; (R-READONLY) only write requests reach a store mutation.',
+     'no stale write-back, no lost flag update, page/crawled marks monotone, crawled only on request, reports count only '
+     'newly flagged pages, queries cannot add pages',
+     'that the enumerated page set equals the submitted set for every insertion order (value statement)')
+
+prop('C02', ['R-GEOMETRY', 'R-TAIL-PROTOCOL', 'R-ACCESSOR-TABLE', 'R-STORAGE-IFACE', 'R-MONOTONE-CALLERS'],
+     'Constant folding of the struct formats and derived constants, accessor/field tables computed from the node classes, '
+     'writer/reader agreement of the tail protocol, and call-shape conformance of every storage call against every back-end '
+     'that can be the receiver.',
+     'the on-disk layout read is the layout written (payload 74 = 75p-1, tail flags, field positions), multi-block reads are '
+     'possible on every back-end, the three sibling searches and the insert side implement one strict order',
+     'byte identity of reconstructed LRUs and the BST invariant on reachable files as value statements')
+
+prop('C03', ['R-LINK-PAIR', 'R-HEAD-REPOINT', 'R-DIRECTION', 'R-ACCESSOR-TABLE', 'R-FRESH', ('R-NULL-HEAD', PAGE_LINKS)],
+     'Path counting over the loops that record a link batch (each pair once outbound, once inbound on every path), guard-fact '
+     'obligations of LinkStore.add_links (prepend, repoint after write), forwarding of the direction switch at every call '
+     'site, field tables of the two link heads, freshness of the page block that carries the heads.',
+     'each submitted pair is recorded once per direction on every path, lists never lose their older part, the two directions '
+     'never cross, a self-link is reported once as internal, no NULL head is dereferenced in page-level queries',
+     'equality of reported weights with submission counts')
+
+prop('C04', ['R-WE-ATTACH', 'R-OWN-ERROR', 'R-DIRTY-WRITTEN'],
+     'Origin/guard dataflow of every set_webentity site, guard-fact tables of the resolution requests, mutate-then-write '
+     'pairing of every prefix edit.',
+     'attaching an attached prefix is refused, resolution fails with TraphException iff the walk saw no webentity, every edit '
+     'is persisted, insert walk and query walk track the deepest webentity identically',
+     'the net effect of an arbitrary edit history as seen by the walk (value statement over histories)')
+
+prop('C05', ['R-STACK-BLOCKS'],
+     'Structure of the bounded traversals.',
+     'each visited block is re-read on pop so the ownership test is made on current data; the bounded walk stops exactly at '
+     'nodes owned by another webentity (DFS and in-order variants agree)',
+     'the partition statement itself')
+
+prop('C06', ['R-ID', 'R-WE-ATTACH'],
+     'Allocation and attach obligations of automatic creation.',
+     'one id per creation, none when nothing is attachable; both automatic creation sites expand variations; '
+     'get_potential_prefix mirrors the insertion ladder',
+     'what the regular expressions match')
+
+prop('C07', ['R-DIRECTION', ('R-NULL-HEAD', NETWORK)],
+     'Direction forwarding and NULL-head guards of the network queries.',
+     'inbound is the same code with the other head; no NULL head dereferenced; fast and slow variants drop/keep the same links',
+     'weight sums and transpose equality as values')
+
+prop('C08', [('R-NULL-HEAD', WE_LINKS), 'R-DISTINCT-DEGREE', 'R-DIRECTION'],
+     'NULL-head guards, de-duplicating iterators in degree counters, direction forwarding.',
+     'no NULL head dereferenced (block 0 parses as a stub and fabricates a link), degrees count distinct pages',
+     'exactness of the returned sets')
+
+prop('C09', [('R-TOKEN-PAIR', ['Traph.paginate_webentity_pages']), 'R-MONOTONE-CALLERS'],
+     'Pairing of the two token halves in the page pagination loop.',
+     'the two halves of a token always describe the same node; nodes never move so a path stays valid',
+     'the k+1 look-ahead arithmetic and completeness at every cut')
+
+prop('C10', [('R-TOKEN-PAIR', PAGELINK_PAGING), ('R-NULL-HEAD', PAGELINK_PAGING)],
+     'Pairing of the two token halves in the pagelink pagination loop; NULL-head guard of the link walk.',
+     'token halves advance together (also on link-less pages); no NULL head dereferenced',
+     'counts per answer')
+
+prop('C11', ['R-GEOMETRY', 'R-DIRTY-WRITTEN', 'R-ID'],
+     'Block geometry (every write is one packed block), header reload obligations, mutate-then-write pairing.',
+     'files stay whole numbers of blocks, reopen re-reads the header instead of resetting it, clear rebuilds both structures, '
+     'no state lives only in a node copy',
+     'equality of every observable answer before/after')
+
+prop('C12', ['R-ID', 'R-DIRTY-WRITTEN'],
+     'Who-may-call on the counter mutators, event-order dataflow in the allocator (increment, write-through, hand out), '
+     'one allocation per request outside loops, header ensure/read obligations on open, rebuild on clear.',
+     'single writer of the counter, write-through before the id is handed out, strictly increasing, one allocation per '
+     'request shared by all attached prefixes, header preserved on reopen and rebuilt on clear',
+     '32-bit overflow of the counter')
+
+prop('C13', ['R-WE-ATTACH', 'R-MONOTONE-CALLERS'],
+     'Origin dataflow of every node that receives a webentity id; who-may-call on the mark setters.',
+     'every path that can attach a prefix goes through add_lru(flag_can_have_child_webentities=True); the mark is never set '
+     'again; the shortcut prunes children only',
+     'exactness of the parent query (value statement)')
 
 prop('C14', ['R-READONLY', 'R-WRITE-API'],
      'Typed call-graph reachability: from every read-only Traph entry point (names in the query families) no path of '
@@ -24,5 +133,37 @@ prop('C14', ['R-READONLY', 'R-WRITE-API'],
      'no path from any query entry point to a mutation of either store (complete for the statement modulo A1-A2)',
      'nothing beyond A1-A2')
 
+prop('C15', ['R-STORAGE-IFACE'],
+     'Signature conformance of every storage call site against every back-end class the typed receiver can be (protocol '
+     'sites), back-end/guard correlation for facade sites, return conventions and cursor protocol of read().',
+     'every call shape used by node/header/store code is accepted by every back-end that can be the receiver; read/write '
+     'return conventions and the read-cursor protocol agree',
+     'equality of answers for every history')
 
-prop('C16', ['R-FRESH','R-DIRTY-WRITTEN','R-NULL-HEAD','R-CRAWLED','R-NONE-CHECK','R-TOKEN-PAIR','R-CHUNK-LAST','R-ACCESSOR-TABLE','R-GEOMETRY','R-TAIL-PROTOCOL','R-STORAGE-IFACE','R-VARIATIONS'], 'tmp', 'tmp', 'tmp')
+prop('C16', ['R-FRESH', 'R-STACK-BLOCKS'],
+     'R-FRESH with every yield as an invalidation point; traversal stacks hold block numbers and re-read on pop; generators '
+     'never write.',
+     'every node cached across a yield point is refreshed before it is written; traversals keep block numbers and re-read',
+     'schedule independence of the final state and the qualified-throughout bounds on answers')
+
+prop('C17', ['R-VARIATIONS'],
+     'List-length-set abstract interpretation and None-ness guard facts of helpers.lru_variations / https_variation; '
+     'anchoring of the scheme test and rewrite; shape of the result list.',
+     'expansion cannot raise, the scheme rewrite touches only the leading scheme stem, the given prefix is listed first',
+     'closure of the expansion (an algebraic law over byte strings)')
+
+prop('C18', ['R-NONE-CHECK', 'R-POINTEE-FIRST', 'R-GEOMETRY'],
+     'Guard facts on every storage.read result, persisted-before-pointed typestate of every pointer store, block geometry.',
+     'a block a cut may have removed is never unpacked unchecked, a pointer is never on disk before its pointee, all writes are '
+     'whole blocks, a partial block or a single file is refused with the library error',
+     'the behaviour at every cut of every history (crash points are not a syntactic object)')
+
+prop('C19', ['R-CHUNK-LAST', 'R-GEOMETRY'],
+     'Reachability after the terminal chunk yield; block geometry.',
+     'no block after the terminal chunk, allocation only on missing stems, one stub per link end',
+     'the closed-form block count')
+
+prop('C20', [('R-NULL-HEAD', MOST_LINKED), 'R-DISTINCT-DEGREE'],
+     'NULL-head guard and de-duplicating iterator of the indegree counter.',
+     'a page without inbound list contributes 0 and not the header block parsed as one stub; indegree counts distinct sources',
+     'top-k optimality and order as values')
